@@ -70,7 +70,19 @@ static int count_threads(void)
 	closedir(d);
 	return n;
 }
-static void take_snap(snap_t *s) { snap_fds(s->fds, sizeof s->fds); snap_maps(s->maps, sizeof s->maps); s->nthreads = count_threads(); }
+/* a joined thread can stay visible in /proc/self/task for a moment: wait until the count has settled */
+static int settled_threads(void)
+{
+	int n = count_threads();
+	for (int t = 0; t < 100; t++) {
+		struct timespec ts = {0, 2000000}; nanosleep(&ts, NULL);
+		int m = count_threads();
+		if (m == n && (n == 1 || t >= 3)) break;
+		n = m;
+	}
+	return n;
+}
+static void take_snap(snap_t *s) { snap_fds(s->fds, sizeof s->fds); snap_maps(s->maps, sizeof s->maps); s->nthreads = settled_threads(); }
 
 static size_t list_dir(const char *d, char *out, size_t cap)
 {
@@ -398,10 +410,10 @@ static void case_c18(const args_t *a, long c, rng_t *r)
 		if (rep == 0) {
 			/* (1) descriptors, file-backed mappings, threads */
 			take_snap(&after);
-			for (int t = 0; t < 20 && after.nthreads != before.nthreads; t++) { struct timespec ts = {0, 5000000}; nanosleep(&ts, NULL); after.nthreads = count_threads(); }
+			for (int t = 0; t < 40 && after.nthreads > before.nthreads; t++) { struct timespec ts = {0, 5000000}; nanosleep(&ts, NULL); after.nthreads = count_threads(); }
 			if (strcmp(before.fds, after.fds) != 0) viol("C18/descriptor-leak", "open descriptors differ after the history: before [%s] after [%s]", before.fds, after.fds);
 			if (strcmp(before.maps, after.maps) != 0) viol("C18/mapping-leak", "file-backed mappings differ after the history: before [%.300s] after [%.600s]", before.maps, after.maps);
-			if (before.nthreads != after.nthreads) viol("C18/thread-leak", "%d threads alive after the history, %d before (a live thread pins its heap allocations)", after.nthreads, before.nthreads);
+			if (after.nthreads > before.nthreads) viol("C18/thread-leak", "%d threads alive after the history, %d before (a live thread pins its heap allocations)", after.nthreads, before.nthreads);
 			STAT("checks.fd_map_thread_snapshots");
 			/* (2) unreachable heap blocks: leaks persist, so the (expensive, stop-the-world) check runs every 8th history and at the end of the process */
 			if (c % 8 == 7 || c == a->start + a->count - 1) {
